@@ -19,7 +19,8 @@ with the rest of the source) provably coincide:
   with `early_function_pos`/`last_macro_function_index`, C with hide sets, and they differ: deviations
   `painted-function-name-reinvoked`, `function-name-before-vanished-macro`);
 * `Kept`: an enabled function-like macro name is kept only if the next token that is not white space is not `(`
-  (rssl stops looking at a line end, C does not: deviation `line-end-before-parenthesis`); no `##`.
+  (this is exactly when rssl keeps it: since fix f08088c the search for `(` skips line ends like C does,
+  `parenAfter_iff_startsParen`; before, `F` line end `(1)` was the deviation `line-end-before-parenthesis`); no `##`.
 
 This file: the relation and the model side, `tame_model`: a tame derivation is what `applyLoop` computes.
 -/
@@ -103,30 +104,51 @@ theorem mem_disable {env : List Entry} {mi : Nat} {e' : Entry} (h : e' ∈ disab
 theorem blank_isWhitespace (t : Tok) (h : t.isBlank = true) : t.isWhitespace = true := by
   cases t <;> simp [Tok.isBlank] at h ⊢ <;> rfl
 
-theorem startsParen_of_trimStart (l : List PTok) (b : Bool) (tail : List PTok)
-    (h : trimStart l = ⟨.lparen, b⟩ :: tail) : startsParen l = true := by
+theorem startsParen_of_trimStartAll (l : List PTok) (b : Bool) (tail : List PTok)
+    (h : trimStartAll l = ⟨.lparen, b⟩ :: tail) : startsParen l = true := by
   induction l with
-  | nil => simp [trimStart] at h
+  | nil => simp [trimStartAll] at h
   | cons t r ih =>
-    unfold trimStart at h ih
+    unfold trimStartAll at h ih
     rw [List.dropWhile_cons] at h
     split at h
-    · rename_i hb
-      have hw : t.tok.isWhitespace = true := blank_isWhitespace _ hb
+    · rename_i hw
       have := ih h
       simp only [startsParen, firstTok, hw, if_true] at this ⊢
       exact this
     · cases h
       simp [startsParen, firstTok, Tok.isWhitespace]
 
-/-- `trimStart (A ++ B)` starts with a `(` that lies in `B`: `A` is blank and `trimStart B` starts with it -/
-theorem trimStart_append_paren (A B tail : List PTok) (b : Bool)
-    (h : trimStart (A ++ B) = ⟨.lparen, b⟩ :: tail) (hlen : tail.length + 1 ≤ B.length) :
-    (∀ t ∈ A, t.tok.isBlank = true) ∧ trimStart B = ⟨.lparen, b⟩ :: tail := by
+/-- the search for `(` of `find_single_macro` / `split_macro_args` (fix f08088c) is the C reading of "the next
+preprocessing token is `(`": white space of every kind, line ends included, is skipped -/
+theorem trimStartAll_of_startsParen (l : List PTok) (h : startsParen l = true) :
+    ∃ b tail, trimStartAll l = ⟨.lparen, b⟩ :: tail := by
+  induction l with
+  | nil => simp [startsParen, firstTok] at h
+  | cons t r ih =>
+    unfold trimStartAll at ih ⊢
+    rw [List.dropWhile_cons]
+    cases hw : t.tok.isWhitespace with
+    | true =>
+      simp only [if_true]
+      apply ih
+      simpa [startsParen, firstTok, hw] using h
+    | false =>
+      simp only [Bool.false_eq_true, if_false]
+      obtain ⟨tk, b⟩ := t
+      simp only [startsParen, firstTok] at h hw
+      simp only [hw, Bool.false_eq_true, if_false, beq_iff_eq, Option.some.injEq] at h
+      subst h
+      exact ⟨b, r, rfl⟩
+
+/-- `trimStartAll (A ++ B)` starts with a `(` that lies in `B`: `A` is white space and `trimStartAll B` starts with it -/
+theorem trimStartAll_append_paren (A B tail : List PTok) (b : Bool)
+    (h : trimStartAll (A ++ B) = ⟨.lparen, b⟩ :: tail) (hlen : tail.length + 1 ≤ B.length) :
+    (∀ t ∈ A, t.tok.isWhitespace = true) ∧ trimStartAll B = ⟨.lparen, b⟩ :: tail := by
   induction A with
   | nil => exact ⟨fun t ht => (by cases ht), by simpa using h⟩
   | cons a A' ih =>
-    unfold trimStart at h ih ⊢
+    unfold trimStartAll at h ih ⊢
     rw [List.cons_append, List.dropWhile_cons] at h
     split at h
     · rename_i hb
@@ -159,36 +181,26 @@ theorem scanArgs_suffix (ts cur : List PTok) (args : List (List PTok)) (d : Nat)
       · obtain ⟨mid, hm⟩ := ih _ _ _ h; exact ⟨t :: mid, by simp [hm]⟩
     · obtain ⟨mid, hm⟩ := ih _ _ _ h; exact ⟨t :: mid, by simp [hm]⟩
 
-theorem trimStart_suffix (l : List PTok) : ∃ pre, l = pre ++ trimStart l :=
-  ⟨l.takeWhile (·.tok.isBlank), by unfold trimStart; exact (List.takeWhile_append_dropWhile).symm⟩
+theorem trimStartAll_suffix (l : List PTok) : ∃ pre, l = pre ++ trimStartAll l :=
+  ⟨l.takeWhile (·.tok.isWhitespace), by unfold trimStartAll; exact (List.takeWhile_append_dropWhile).symm⟩
 
 theorem readArgs_suffix (m : Macro) (remaining rest : List PTok) (args : List (List PTok))
     (h : readArgs m remaining = .ok (rest, args)) : ∃ mid, remaining = mid ++ rest := by
-  unfold readArgs at h
-  split at h
-  · cases hs : splitArgs m.name remaining with
-    | error e => simp [hs] at h
-    | ok ra =>
-      obtain ⟨r1, a1⟩ := ra
-      simp only [hs] at h
-      have hr : r1 = rest := by
-        split at h
-        · split at h
-          · cases h; rfl
-          · cases h
-        · split at h
-          · cases h
-          · cases h; rfl
-      subst hr
-      unfold splitArgs at hs
-      split at hs
-      · rename_i b tail htrim
-        obtain ⟨mid, hm⟩ := scanArgs_suffix _ _ _ _ _ _ hs
-        obtain ⟨pre, hp⟩ := trimStart_suffix remaining
-        refine ⟨pre ++ ⟨.lparen, b⟩ :: mid, ?_⟩
-        rw [hp, htrim, hm]; simp
-      · cases hs
-  · cases h; exact ⟨[], rfl⟩
+  cases hf : m.isFunction with
+  | true =>
+    have hs := readArgs_ok_function m remaining rest args hf h
+    unfold splitArgs at hs
+    split at hs
+    · rename_i b tail htrim
+      obtain ⟨mid, hm⟩ := scanArgs_suffix _ _ _ _ _ _ hs
+      obtain ⟨pre, hp⟩ := trimStartAll_suffix remaining
+      refine ⟨pre ++ ⟨.lparen, b⟩ :: mid, ?_⟩
+      rw [hp, htrim, hm]; simp
+    · cases hs
+  | false =>
+    unfold readArgs at h
+    simp only [hf] at h
+    cases h; exact ⟨[], rfl⟩
 
 /-! ## the scan of `find_single_macro` -/
 
@@ -201,9 +213,20 @@ theorem parenAfter_none_of_startsParen (toks : List PTok) (i : Nat)
   unfold parenAfter
   split
   · rename_i b tail ht
-    have := startsParen_of_trimStart _ _ _ ht
+    have := startsParen_of_trimStartAll _ _ _ ht
     rw [h] at this; cases this
   · rfl
+
+/-- **`find_single_macro` looks for the `(` of an invocation the way C does** (fix f08088c): it is found exactly when
+the next token that is not white space -- blank, comment *or line end* -- is `(` -/
+theorem parenAfter_iff_startsParen (toks : List PTok) (i : Nat) :
+    (parenAfter toks i).isSome = startsParen (toks.drop (i + 1)) := by
+  cases h : startsParen (toks.drop (i + 1)) with
+  | false => rw [parenAfter_none_of_startsParen toks i h]; rfl
+  | true =>
+    obtain ⟨b, tail, ht⟩ := trimStartAll_of_startsParen _ h
+    unfold parenAfter
+    rw [ht]; rfl
 
 theorem matchMacro_kept (toks : List PTok) (i : Nat) (n : String) (sp : SearchPos) (j : Nat) (env : List Entry)
     (h : ∀ e ∈ env, e.m.name = n → e.disabled = true ∨ (e.m.isFunction = true ∧ parenAfter toks i = none)) :
@@ -270,7 +293,7 @@ theorem selects_split {env : List Entry} {n : String} {mi : Nat} {e : Entry} (h 
 
 theorem parenAfter_gt (toks : List PTok) (i act : Nat) (h : parenAfter toks i = some act) : i < act := by
   obtain ⟨b, tail, htrim, hact⟩ := parenAfter_spec toks i act h
-  have := trimStart_length_le (toks.drop (i + 1))
+  have := trimStartAll_length_le (toks.drop (i + 1))
   rw [htrim] at this
   simp only [List.length_cons, List.length_drop] at this
   omega
@@ -388,12 +411,12 @@ theorem matchMacro_at_early (toks : List PTok) (i : Nat) (sp : SearchPos) (k : N
     simp only [hx, if_false, ih', ite_self]
     congr 1; omega
 
-theorem trimStart_first_nonblank (l : List PTok) (x : PTok) (tail : List PTok) (h : trimStart l = x :: tail)
-    (j : Nat) (t : PTok) (hj : l[j]? = some t) (ht : t.tok.isBlank = false) : l.length - (tail.length + 1) ≤ j := by
+theorem trimStartAll_first_nonws (l : List PTok) (x : PTok) (tail : List PTok) (h : trimStartAll l = x :: tail)
+    (j : Nat) (t : PTok) (hj : l[j]? = some t) (ht : t.tok.isWhitespace = false) : l.length - (tail.length + 1) ≤ j := by
   induction l generalizing j with
-  | nil => simp [trimStart] at h
+  | nil => simp [trimStartAll] at h
   | cons a r ih =>
-    unfold trimStart at h ih
+    unfold trimStartAll at h ih
     rw [List.dropWhile_cons] at h
     split at h
     · rename_i hb
@@ -409,25 +432,25 @@ theorem trimStart_first_nonblank (l : List PTok) (x : PTok) (tail : List PTok) (
     · cases h
       simp
 
-/-- the `(` found behind position `p` does not lie behind a later token that is not blank -/
+/-- the `(` found behind position `p` does not lie behind a later token that is not white space -/
 theorem parenAfter_le_nonblank (toks : List PTok) (p act q : Nat) (t : PTok) (h : parenAfter toks p = some act)
-    (hpq : p < q) (hq : toks[q]? = some t) (ht : t.tok.isBlank = false) : act ≤ q := by
+    (hpq : p < q) (hq : toks[q]? = some t) (ht : t.tok.isWhitespace = false) : act ≤ q := by
   obtain ⟨b, tail, htrim, hact⟩ := parenAfter_spec toks p act h
   have hq' : (toks.drop (p + 1))[q - (p + 1)]? = some t := by
     rw [List.getElem?_drop]
     have : p + 1 + (q - (p + 1)) = q := by omega
     rw [this]; exact hq
-  have := trimStart_first_nonblank _ _ _ htrim _ t hq' ht
+  have := trimStartAll_first_nonws _ _ _ htrim _ t hq' ht
   simp only [List.length_drop] at this
   have hlen : q < toks.length := (List.getElem?_eq_some_iff.mp hq).1
   omega
 
-theorem trimStart_blank_prefix (blanks rest : List PTok) (h : ∀ t ∈ blanks, t.tok.isBlank = true) :
-    trimStart (blanks ++ rest) = trimStart rest := by
+theorem trimStartAll_ws_prefix (blanks rest : List PTok) (h : ∀ t ∈ blanks, t.tok.isWhitespace = true) :
+    trimStartAll (blanks ++ rest) = trimStartAll rest := by
   induction blanks with
   | nil => rfl
   | cons a r ih =>
-    unfold trimStart at ih ⊢
+    unfold trimStartAll at ih ⊢
     rw [List.cons_append, List.dropWhile_cons]
     simp only [h a (by simp), if_true]
     exact ih (fun t ht => h t (by simp [ht]))
@@ -435,13 +458,13 @@ theorem trimStart_blank_prefix (blanks rest : List PTok) (h : ∀ t ∈ blanks, 
 /-- **The scan of the early region finds the function-like name at the end of an expansion.**  After an invocation
 was replaced by `R0 ++ g :: blanks` (`P`: the tokens before it), with `next_pos` behind the expansion and
 `early_function_pos` at its start: if `g` names an enabled function-like entry other than the one applied last, only
-blanks (white space, comments) follow it inside the expansion, and the text behind the expansion starts -- after
-blanks -- with `(`, then `find_single_macro` reports an invocation of that entry at the position of `g`. -/
+white space (blanks, comments, line ends) follows it inside the expansion, and the text behind the expansion starts
+-- after white space -- with `(`, then `find_single_macro` reports an invocation of that entry at the position of `g`. -/
 theorem early_scan_finds_trailing_name (env : List Entry) (P R0 blanks rest : List PTok) (g : String) (b : Bool)
     (mj : Nat) (e : Entry) (lastFn : Option Nat)
     (hsel : Selects env g mj e) (hfn : e.m.isFunction = true) (hlast : lastFn ≠ some mj)
-    (hnc : NoConcat R0) (hblank : ∀ t ∈ blanks, t.tok.isBlank = true)
-    (hparen : ∃ b' tail, trimStart rest = ⟨.lparen, b'⟩ :: tail) :
+    (hnc : NoConcat R0) (hblank : ∀ t ∈ blanks, t.tok.isWhitespace = true)
+    (hparen : ∃ b' tail, trimStartAll rest = ⟨.lparen, b'⟩ :: tail) :
     findSingle (P ++ (R0 ++ ⟨.id g, b⟩ :: blanks) ++ rest)
       ⟨P.length + (R0 ++ ⟨.id g, b⟩ :: blanks).length, P.length, lastFn⟩ env =
       .ok (.user mj (P.length + R0.length)) := by
@@ -465,9 +488,9 @@ theorem early_scan_finds_trailing_name (env : List Entry) (P R0 blanks rest : Li
   -- the `(` behind `g`
   have hpa : parenAfter toks (P.length + R0.length) = some (toks.length - (tail.length + 1)) := by
     unfold parenAfter
-    rw [hdropg, trimStart_blank_prefix blanks rest hblank, htrim]
+    rw [hdropg, trimStartAll_ws_prefix blanks rest hblank, htrim]
   have htl : tail.length + 1 ≤ rest.length := by
-    have := trimStart_length_le rest
+    have := trimStartAll_length_le rest
     rw [htrim] at this
     simpa using this
   unfold findSingle
@@ -525,15 +548,15 @@ theorem passes_after (env : List Entry) (mi : Nat) (e : Entry) (P R rest' : List
   rw [hdrop] at htrim
   have hlen' : (P ++ R ++ rest').length = P.length + R.length + rest'.length := by simp; omega
   have htl : tail.length + 1 ≤ (R.drop (p - P.length + 1) ++ rest').length := by
-    have := trimStart_length_le (R.drop (p - P.length + 1) ++ rest')
+    have := trimStartAll_length_le (R.drop (p - P.length + 1) ++ rest')
     rw [htrim] at this
     simpa using this
   have htl2 : tail.length + 1 ≤ rest'.length := by
     simp only [List.length_append, List.length_drop] at htl
     omega
-  obtain ⟨hblank, htrim'⟩ := trimStart_append_paren _ _ _ _ htrim htl2
-  have hsp : startsParen rest' = true := startsParen_of_trimStart _ _ _ htrim'
-  rcases hnf _ x b' _ hRsplit (fun t ht => blank_isWhitespace _ (hblank t ht)) hsp j e' hj hname hfn with h4 | h4
+  obtain ⟨hblank, htrim'⟩ := trimStartAll_append_paren _ _ _ _ htrim htl2
+  have hsp : startsParen rest' = true := startsParen_of_trimStartAll _ _ _ htrim'
+  rcases hnf _ x b' _ hRsplit (fun t ht => hblank t ht) hsp j e' hj hname hfn with h4 | h4
   · rw [hd] at h4; cases h4
   · subst h4
     rw [hmi] at hj
